@@ -69,6 +69,20 @@ func runC17(c *Ctx) {
 		rd := putUint(nil, 2, uint64(k.Flags))
 		rd = append(rd, k.Protocol, k.Algorithm)
 		rd = append(rd, key...)
+		if len(key) >= 2 && len(rd)%2 == 0 && r.Chance(40) {
+			// steer the 16-bit sum towards the carry boundary: low half + high half around 65536
+			s0 := 0
+			for j := 0; j+1 < len(rd)-2; j += 2 {
+				s0 += int(rd[j])<<8 | int(rd[j+1])
+			}
+			hi := (s0 + 65535) >> 16
+			target := (65536 - hi - 2 + r.Intn(5)) & 0xFFFF
+			w := (target - s0) & 0xFFFF
+			rd[len(rd)-2], rd[len(rd)-1] = byte(w>>8), byte(w)
+			key = rd[4:]
+			k.PublicKey = toB64(key)
+			c.Hit("keytag:carry-boundary")
+		}
 		c.Op("keytag", "keytag "+hx(rd), fmt.Sprint(k.KeyTag()), len(key) > 0)
 		c.OpK("keytag", "spec.keytag "+hx(rd), fmt.Sprint(k.KeyTag()), len(key) > 0, "keytag-vs-rfc")
 		// DS digests
